@@ -386,6 +386,18 @@ def main():
         calls = [m for m in re.finditer(RUN_PATS["task"], src) if not re.search(r"fn\s+$", src[:m.start()][-8:])]
         stray += len(calls)
 
+    # ---- rip-tools shell: an abandoned call (runner timeout drops the future) kills its command
+    sh_src = read("crates/rip-tools/src/builtins/shell.rs")
+    rc = fn_body(sh_src, "run_command")
+    abandon_kills = False
+    if rc is None:
+        problem("shell.rs: run_command not found")
+    else:
+        sp = re.search(r"\.\s*spawn\s*\(\s*\)", rc)
+        kd = re.search(r"\bcmd\s*\.\s*kill_on_drop\s*\(\s*true\s*\)\s*;", rc)
+        ncmd = len(re.findall(r"Command::new\s*\(", sh_src))
+        abandon_kills = bool(sp and kd and kd.start() < sp.start() and ncmd == 1)
+
     for k in ("tool", "ro", "loop_tool", "loop_ro", "ckpt", "task"):
         if spans.get(k) is None:
             problem(f"span {k} not extracted")
@@ -404,6 +416,7 @@ def main():
     out.append("  permits := %d;" % (permits if permits is not None else 0))
     out.append("  shared_lock := %s;" % ("true" if shared else "false"))
     out.append("  stray_sites := %d;" % max(stray, 0))
+    out.append("  abandon_kills := %s;" % ("true" if abandon_kills else "false"))
     out.append("  class_default_lock := %s;" % ("true" if default_lock else "false"))
     out.append("  class_listed := [%s];" % "; ".join(coq_str(s) for s in (listed or [])))
     out.append("  registered := [%s];" % "; ".join(coq_str(s) for s in registered))
